@@ -522,7 +522,7 @@ func runC10(c *wk.Ctx) {
 		c.Begin(0, "descriptions of chains of objects with two defaulted references each")
 		c04DefaultChains(c, "C10")
 	}
-	nDesc := c.N(24, 900)
+	nDesc := c.N(48, 900)
 	const chunks = 8 // the mutants of one description are spread over several cases (and so over the workers)
 	c.Cases(nDesc*chunks, func(caseIdx int64, _ *wk.Rand) {
 		idx, chunk := caseIdx/chunks, int(caseIdx%chunks)
